@@ -80,7 +80,7 @@ MCFixedTrees ==
 MCGrowKeys == RootKeys
 \* candidate values of a top-level entry, by weight
 \* (TLCEval: an explicit function; a lazy one would rebuild the tables at every application)
-MCGrowVals == TLCEval(LET tab == TabAt(0) IN [w \in 1..Budget |-> tab[w]])
+MCGrowVals == TLCEval([w \in 1..Budget |-> TabAt(0)[w]])
 
 \* the plan: every format, every option value, and two loads with the wrong root tag
 O == DefaultOpts
